@@ -123,6 +123,7 @@ class Aggregate:
         self.first_seed = None
         self.last_seed = None
         self.by_worker = {}
+        self.maxes = {}
 
     def add(self, res):
         self.runs += 1
@@ -136,6 +137,9 @@ class Aggregate:
             return
         for k, v in res.get('counters', {}).items():
             self.counters[k] = self.counters.get(k, 0) + v
+        for k, v in res.get('maxes', {}).items():
+            if v > self.maxes.get(k, 0.0):
+                self.maxes[k] = v
         for k, v in res.get('sets', {}).items():
             self.sets.setdefault(k, set()).update(
                 tuple(x) if isinstance(x, list) else x for x in v)
@@ -380,6 +384,10 @@ def write_evidence(prop, tier, seed, agg, wall_s, mod, n_violations, extra=None)
                           '(see counters ops, em_steps)',
         'counters': dict(sorted(agg.counters.items())),
         'sets': sets_summary,
+        'tolerance_margins_used': {
+            'what': 'largest observed deviation divided by its tolerance, per '
+                    'comparison kind, over this run (1.0 would be an alarm)',
+            'values': {k: float(f'{v:.3g}') for k, v in sorted(agg.maxes.items())}},
         'components': mod.COMPONENTS,
         'harness_errors': len(agg.harness_errors),
     }
